@@ -5,7 +5,12 @@
    concurrent submissions: the driver searches an order of the requests (= of their critical
    sections) for which the model gives every request the answer the implementation gave and the
    same sequence of register writes / uploads; if none exists the answers of the submission
-   order are printed (and differ). *)
+   order are printed (and differ).
+   Several orders can explain a block and leave DIFFERENT worlds behind (e.g. whether the instance's cached
+   checkpoint was dropped by a failed Replace before or after another request re-fetched it), which the block's
+   answers do not reveal. The driver therefore carries the SET of worlds consistent with everything observed so
+   far (at most [max_cands]): a line is reproduced if some candidate gives the implementation's answer, and the
+   candidates that do not are dropped; if none does, the first candidate's answer is printed (and differs). *)
 let n_of_string s = n_of_dec (bytes_of_string s)
 let fault_of = function "fail" -> FFailNotApplied | "failapplied" -> FFailApplied | _ -> FOk
 let ok_of s = (s <> "fail")
@@ -24,8 +29,19 @@ let note_of s =
 let hdr_of s = if s = "nocut" then None else Some (unhex s)
 
 let cfg = ref (bcfg (n_of_int 16) (n_of_int 17) N0)
-let world = ref w_init
+let world = ref w_init          (* first candidate (kept for the block fallback) *)
+let cands = ref [w_init]        (* all worlds consistent with the lines so far; never empty *)
+let max_cands = 32
 let str = string_of_bytes
+let rec dedup = function [] -> [] | x :: r -> x :: dedup (List.filter (fun y -> y <> x) r)
+let rec firstn n = function [] -> [] | x :: r -> if n = 0 then [] else x :: firstn (n - 1) r
+let set_cands l = (match firstn max_cands (dedup l) with [] -> () | l' -> cands := l'); world := List.hd !cands
+(* one line on every candidate: f w = (w', answer) *)
+let on_cands impl out f =
+  let rs = List.map f !cands in
+  match List.filter (fun (_, a) -> a = impl) rs with
+  | [] -> let (w', a) = List.hd rs in out a; set_cands [w']
+  | good -> out impl; set_cands (List.map fst good)
 
 let rec take_until_arrow acc = function
   | "=>" :: r -> (List.rev acc, r)
@@ -43,29 +59,26 @@ let run_cadd w args =
     add_seq sha_bytes !cfg w (n_of_string i) b (ok_of ff) (fault_of fr) (fault_of fu)
   | _ -> failwith "cadd"
 
-(* depth-first search of an order explaining the answers; returns (final world, answers by index) *)
+(* depth-first search of the orders explaining the answers; returns the distinct final worlds of ALL of them *)
 let search w0 items want_writes =
   let n = Array.length items in
   let used = Array.make n false in
-  let ans = Array.make n "" in
-  let result = ref None in
+  let results = ref [] in
   let rec go w k =
-    if !result <> None then ()
-    else if k = n then begin
-      if str (show_writes !cfg w0 w) = want_writes then result := Some (w, Array.copy ans)
+    if k = n then begin
+      if str (show_writes !cfg w0 w) = want_writes && not (List.mem w !results) then results := w :: !results
     end else
       for j = 0 to n - 1 do
-        if not used.(j) && !result = None then begin
+        if not used.(j) then begin
           let (args, impl) = items.(j) in
           let (w', o) = run_cadd w args in
-          let a = str (show_output o) in
-          if a = impl then begin
-            used.(j) <- true; ans.(j) <- a; go w' (k + 1); used.(j) <- false
+          if str (show_output o) = impl then begin
+            used.(j) <- true; go w' (k + 1); used.(j) <- false
           end
         end
       done in
   go w0 0;
-  !result
+  List.rev !results
 
 let () =
   iter_lines (fun line ->
@@ -73,48 +86,55 @@ let () =
     | op :: rest when op <> "" && op <> "stat" ->
       let (args, impl) = take_until_arrow [] rest in
       let out r = print_string (String.concat "|" (op :: args)); print_string "|=>|"; print_string r; print_newline () in
+      let impl_s = String.concat "|" impl in
       (match op, args with
        | "reset", [w1; w2; m] ->
-         cfg := bcfg (n_of_string w1) (n_of_string w2) (n_of_string m); world := w_init; out "ok"
+         cfg := bcfg (n_of_string w1) (n_of_string w2) (n_of_string m); cands := [w_init]; world := w_init; out "ok"
        | "restart", [i] ->
-         let (w, o) = bstep sha_bytes !cfg !world (ERestart (n_of_string i)) in
-         world := w; out (str (show_output o))
+         on_cands impl_s out (fun w0 ->
+           let (w, o) = bstep sha_bytes !cfg w0 (ERestart (n_of_string i)) in (w, str (show_output o)))
        | "addlog", [i; o; k; fc; ff; fcf; fconf] ->
-         let (w, r) = bstep sha_bytes !cfg !world
-             (EAddLog (n_of_string i, unhex o, [n_of_string k], fault_of fc, ok_of ff, ok_of fcf, fault_of fconf)) in
-         world := w; out (str (show_output r))
+         on_cands impl_s out (fun w0 ->
+           let (w, r) = bstep sha_bytes !cfg w0
+               (EAddLog (n_of_string i, unhex o, [n_of_string k], fault_of fc, ok_of ff, ok_of fcf, fault_of fconf)) in
+           (w, str (show_output r)))
        | "add", [i; "seq"; ff; fr; fu; hdr; nt] ->
          let b = decode_add (hdr_of hdr) (note_of nt) in
-         let r = add_seq sha_bytes !cfg !world (n_of_string i) b (ok_of ff) (fault_of fr) (fault_of fu) in
-         out (str (full !cfg !world r)); world := fst r
+         on_cands impl_s out (fun w0 ->
+           let r = add_seq sha_bytes !cfg w0 (n_of_string i) b (ok_of ff) (fault_of fr) (fault_of fu) in
+           (fst r, str (full !cfg w0 r)))
        | "add", [i; "hold"; ff; _; _; hdr; nt] ->
          let b = decode_add (hdr_of hdr) (note_of nt) in
-         let r = bstep sha_bytes !cfg !world (EAdd (n_of_string i, b, ok_of ff)) in
-         out (str (full !cfg !world r)); world := fst r
+         on_cands impl_s out (fun w0 ->
+           let r = bstep sha_bytes !cfg w0 (EAdd (n_of_string i, b, ok_of ff)) in
+           (fst r, str (full !cfg w0 r)))
        | "step", [i; o; f] ->
-         let r = step_held sha_bytes !cfg !world (n_of_string i) (unhex o) (fault_of f) in
-         out (str (full !cfg !world r)); world := fst r
+         on_cands impl_s out (fun w0 ->
+           let r = step_held sha_bytes !cfg w0 (n_of_string i) (unhex o) (fault_of f) in
+           (fst r, str (full !cfg w0 r)))
        | "sub", [i; hdr; nt] ->
          let b = decode_sub (hdr_of hdr) (note_of nt) in
-         let (_, o) = bstep sha_bytes !cfg !world (ESub (n_of_string i, b)) in
-         out (str (show_output o))
+         on_cands impl_s out (fun w0 ->
+           let (_, o) = bstep sha_bytes !cfg w0 (ESub (n_of_string i, b)) in
+           (w0, str (show_output o)))
        | "conc", _ -> batch := []; in_batch := true; out "ok"
        | "cadd", _ -> batch := (args, String.concat "|" impl) :: !batch
        | "cend", [i] ->
          let items = Array.of_list (List.rev !batch) in
          let want = String.concat "|" impl in
-         (match search !world items want with
-          | Some (w, ans) ->
-            Array.iteri (fun j (a, _) ->
-              print_string (String.concat "|" ("cadd" :: a)); print_string "|=>|"; print_string ans.(j); print_newline ()) items;
-            out (str (show_writes !cfg !world w)); world := w
-          | None ->
+         (match List.concat_map (fun w0 -> search w0 items want) !cands with
+          | _ :: _ as ws ->
+            (* every request got the implementation's answer in the explaining orders *)
+            Array.iter (fun (a, ans) ->
+              print_string (String.concat "|" ("cadd" :: a)); print_string "|=>|"; print_string ans; print_newline ()) items;
+            out want; set_cands ws
+          | [] ->
             let w = ref !world in
             Array.iter (fun (a, _) ->
               let (w', o) = run_cadd !w a in
               print_string (String.concat "|" ("cadd" :: a)); print_string "|=>|"; print_string (str (show_output o)); print_newline ();
               w := w') items;
-            out (str (show_writes !cfg !world !w)); world := !w);
+            out (str (show_writes !cfg !world !w)); set_cands [!w]);
          in_batch := false
        | _ -> out "?unknown-op")
     | _ -> ())
